@@ -529,7 +529,7 @@ func listTypes() []seqType {
 // longList builds a value of list type lt with n elements (n clipped to the SIZE constraint) whose elements are mostly
 // minimal - OPTIONAL components absent, so that an element may take less than one octet - with a few fuller ones in
 // between. The list is wrapped in a one-field struct because the codec's entry points take structs.
-func longList(r *rand.Rand, lt seqType, want int) (reflect.Value, int) {
+func longList(r *rand.Rand, lt seqType, want int, minimal ...bool) (reflect.Value, int) {
 	p, _ := per.ParseTag(lt.Tag)
 	lb, ub := 0, 1<<16
 	if p.SizeLB != nil {
@@ -549,6 +549,9 @@ func longList(r *rand.Rand, lt seqType, want int) (reflect.Value, int) {
 	ep.SizeExt, ep.SizeLB, ep.SizeUB, ep.Optional = false, nil, nil, false
 	out := reflect.MakeSlice(lt.Typ, 0, n)
 	pattern := r.Intn(4)
+	if len(minimal) > 0 && minimal[0] {
+		pattern = 0
+	}
 	for i := 0; i < n; i++ {
 		budget := -1
 		switch pattern {
@@ -573,6 +576,21 @@ func longList(r *rand.Rand, lt seqType, want int) (reflect.Value, int) {
 	return v, n
 }
 
+// constrainedCount16K: lists whose SIZE constraint ends at 65535 (or 16384) carry their count as ONE constrained whole
+// number however many elements there are - the 16K fragments belong to the general length determinant only. Four list
+// types with small elements make such a list of 16384 and more elements cheap enough for the quick tier.
+func constrainedCount16K(lt seqType, j, nl int) (int, bool) {
+	lp, _ := per.ParseTag(lt.Tag)
+	if lp.SizeUB == nil || *lp.SizeUB < 16384 || *lp.SizeUB >= 65536 || (j/nl)%3 != 1 {
+		return 0, false
+	}
+	switch lt.Typ.Elem().Name() {
+	case "EmergencyAreaID", "NRCGI", "EUTRACGI", "TAI":
+		return []int{16384, 16385, 20000, 32768, 49152, 65535}[(j/nl/3)%6], true
+	}
+	return 0, false
+}
+
 var longListSizes = []int{8, 9, 12, 16, 17, 23, 31, 32, 33, 40, 64, 65, 100, 127, 128, 129, 200, 255, 256, 257, 300, 1000, 1023, 1024, 1025, 2047, 2048, 2049, 4096, 4097}
 
 func c04LongList(c *fw.Case) (o fw.Outcome) {
@@ -587,8 +605,13 @@ func c04LongList(c *fw.Case) (o fw.Outcome) {
 		want = []int{16383, 16384, 16385, 20000, 32768, 49152, 49153, 65535, 65536}[(j/len(lts)/3)%9]
 		o.Tag("long-list:fragmented-length")
 	}
+	w16, minimal := constrainedCount16K(lt, j, len(lts))
+	if minimal {
+		want = w16
+		o.Tag("long-list:constrained-count-16K-and-more")
+	}
 	t0 := time.Now()
-	v, n := longList(c.R, lt, want)
+	v, n := longList(c.R, lt, want, minimal)
 	t1 := time.Now()
 	defer func() {
 		if os.Getenv("VERIF_TIMING") != "" {
